@@ -186,6 +186,11 @@ func (ex *Exec) applyContract(fr *Frame, fn *ssa.Function, ct *Contract, args []
 		}
 		c, err := post.EvalBool(en.Expr)
 		if err != nil {
+			if strings.Contains(err.Error(), "unknown identifier") {
+				// a clause over the callee's own locals (final values): provable for the callee, meaningless to callers.
+				// A misspelt name is still reported when the callee itself is verified.
+				continue
+			}
 			ex.unsupp("contract %s ensures[%s]: %v", ct.Func, en.Label, err)
 			continue
 		}
@@ -216,9 +221,18 @@ func (ex *Exec) fnWriteSet(fn *ssa.Function, args []Val, pre *State, ctx *CtxV) 
 		if cached, ok := ex.wsCache[fn]; ok {
 			ws = cached
 		} else {
-			// declared (and proved) write set
+			// declared (and proved) write set; a family may depend on the arguments (e.g. `writes fam(prefix)`),
+			// in which case it is evaluated per call site and not cached
 			ws = &WriteSet{fams: map[int]bool{}}
-			env := ex.envFor(fn, nil, nil, NewState(), nil)
+			params := map[string]TV{}
+			for i, p := range fn.Params {
+				if i < len(args) {
+					params[p.Name()] = TV{args[i], p.Type()}
+				}
+			}
+			constEnv := ex.envFor(fn, nil, nil, NewState(), nil)
+			argEnv := ex.envFor(fn, params, ctx, pre, nil)
+			cacheable := true
 			for _, w := range ct.Writes {
 				e, err := ParseExpr(w)
 				if err != nil {
@@ -226,24 +240,30 @@ func (ex *Exec) fnWriteSet(fn *ssa.Function, args []Val, pre *State, ctx *CtxV) 
 					ws.all = true
 					continue
 				}
-				func() {
+				evalFam := func(env *Env) (t *Term) {
 					defer func() {
 						if r := recover(); r != nil {
-							ex.unsupp("writes clause of %s: cannot evaluate %s", ct.Func, w)
-							ws.all = true
+							t = nil
 						}
 					}()
-					t := env.term(e)
-					if t.Op == "int" && t.Int.IsInt64() {
-						ws.fams[int(t.Int.Int64())] = true
-					} else {
-						ex.unsupp("writes clause of %s: %s is not a constant family", ct.Func, w)
-						ws.all = true
-					}
-				}()
+					return env.term(e)
+				}
+				t := evalFam(constEnv)
+				if t == nil || t.Op != "int" {
+					cacheable = false
+					t = evalFam(argEnv)
+				}
+				if t != nil && t.Op == "int" && t.Int.IsInt64() {
+					ws.fams[int(t.Int.Int64())] = true
+				} else {
+					ex.warn("writes clause of %s: %s is not a constant family at this call site (everything havocked, the proved frame clause still applies)", ct.Func, w)
+					ws.all = true
+				}
 			}
 			ws.effects = ex.fnEffects(fn).world && ex.declaredEffects(fn)
-			ex.wsCache[fn] = ws
+			if cacheable {
+				ex.wsCache[fn] = ws
+			}
 		}
 	} else if cached, ok := ex.wsCache[fn]; ok && !hasCallback {
 		ws = cached
@@ -434,6 +454,7 @@ func (ex *Exec) evalInvariant(fr *Frame, lp *Loop, iv Clause, st *State) *Term {
 	env := ex.envFor(fr.fn, params, ctx, st, old)
 	env.fr = fr
 	env.entry = fr.loopEntry[lp.header]
+	env.prev = fr.loopPrev[lp.header]
 	if al := ex.rangeIndexOf(fr, lp); al != nil {
 		if p, ok := fr.env[al].(*PtrV); ok {
 			if c, ok := st.heap[p.Obj.id].(*Term); ok {
@@ -624,6 +645,28 @@ func (ex *Exec) verifyFunction(fn *ssa.Function, ct *Contract, prefix string) *F
 	}
 	for _, m := range errs {
 		ex.unsupp("%s", m)
+	}
+	if ct != nil {
+		for callee, pcs := range ct.Precalls {
+			for _, pc := range pcs {
+				if !ex.precallSeen[prefix+"#"+callee+"."+pc.Label] {
+					ex.unsupp("vacuity: precall %s [%s] of %s was never instantiated (no direct call of %s was explored)", callee, pc.Label, prefix, callee)
+				}
+			}
+		}
+		for ord, ls := range ct.Loops {
+			if len(ls.Steps) > 0 {
+				found := false
+				for _, o := range ex.obs {
+					if strings.HasPrefix(o.Name, fmt.Sprintf("%s#loop%d.step", prefix, ord)) {
+						found = true
+					}
+				}
+				if !found {
+					ex.unsupp("vacuity: step clauses of loop %d of %s generated no obligation (no back edge explored)", ord, prefix)
+				}
+			}
+		}
 	}
 	rep.Obligations = ex.obs
 	rep.Unsupported = ex.unsupported
